@@ -122,6 +122,11 @@ func (this *UTFCodec) Forward(src, dst []byte) (uint, uint, error) {
 		for (start < 4) && (_UTF_SIZES[src[start]] == 0) {
 			start++
 		}
+
+		// A truncated symbol leaves at most 3 bytes (the value is stored in 2 bits)
+		if start == 4 {
+			return 0, 0, errors.New("UTF forward transform skip: not UTF")
+		}
 	}
 
 	if (mustValidate == true) && (validateUTF(src[start:count-4]) == false) {
